@@ -6,9 +6,22 @@ props = [json.loads(l)['id'] for l in open(os.path.join(V, 'properties.jsonl'))]
 TECH = "SMT-based symbolic execution of go/ssa (bounded model checking; z3 decides every obligation)"
 claims = {
 
+ "C07": dict(
+  text="PARTIAL: (ping) Router.handlePing/parsePingMsg/sessionFromPingHeader on an arbitrary ping-class frame (signed RouterPing/RouterHopPing or encrypted RouterCtrl, arbitrary bytes, arbitrary decoded header, known or unknown source): a ping handler runs only after the frame verified (signature / AEAD) under the key bound to its source, and on first contact a session exists only after the header's key material hashed to the frame source; (disconnect) DisconnectPingHandler.Handle with an arbitrary decoded body removes routes and sets the offline flag only for the frame's source and never forwards to the origin, the receiving link or lite peers. The exactness of RemoveDisconnected itself is checked under C11 (remove harness).",
+  note="CBOR = arbitrary decoded struct or error; Ed25519/AEAD/hash idealised and recorded; hello/pong/error/announce handler effects are covered only as far as C14 (hello) and C08-style checks exist; replay after intervening traffic reduces to C03.",
+  tech=TECH),
+ "C11": dict(
+  text="One routing-table operation from an ARBITRARY table satisfying the representation invariant R (sorted by stdSort, <=3 non-peer and <=1 peer entry per destination, consistent totals), entries symbolic (128-bit addresses, hops, delays, expiry): LookupNearest/LookupNearestRoute return the best route to exactly the queried address when one exists; RemoveNextHop/RemoveDisconnected(x,nil) remove exactly the matching entries, keep order and count; AddRoute: not added => unchanged, added => present, R kept, no peer route evicted; Clean: peers kept, nothing invented, expired non-peer routes gone, gossip entries per routing prefix within the limit, sorted again. R is re-asserted after every mutating operation, so sequences of any length follow by induction.",
+  note="N<=3 entries (lookup/remove) and N<=2 (add/clean) quick; N<=4/3 thorough; hops 2..H (H=2 quick, 3 thorough); single routable prefix fd00::/8 with symbolic limit 0..2; RemoveDisconnected with explicit peer list, LookupPossiblePaths and Format outside; time.Since/Until summarised by exact threshold lemmas (whole seconds).",
+  tech=TECH+" + one-step induction over a representation invariant"),
+ "C14": dict(
+  text="Two real HelloPingHandlers with real sessions (InitKeyClientStart/InitKeyServer/InitKeyClientComplete/initFinalize executed from SSA) under every schedule of K steps from {A starts a setup, B starts a setup, deliver any sent message}: with message loss, reordering limited by the signed-frame timestamp order, retries after expiry (arbitrary clock): never both set up with keys of different exchanges. Reports the crossing-setup defect as KNOWN-FINDING; any single-initiator mismatch is a VIOLATION.",
+  note="X25519 idealised (commutative uninterpreted shared secret), BLAKE3 derive = uninterpreted function, cipher identified by key; sendPingMsg = multiset of sent messages; CBOR tokens; K=5 quick / 7 thorough; counterexamples re-validated symbolically (no native two-router rig).",
+  tech=TECH),
+
  "C06": dict(
-  text="PARTIAL (policy compilation and lookup): symbolic execution of getInfoFromURL/addInPolicyKey/CheckInboundTrafficPolicy for a grid of 216 service URLs (8 schemes x 3 hosts x 9 port spellings) x a symbolic access rule (public/friends bits, <=2 friend addresses, <=2 for-addresses): a packet with symbolic protocol 0..255, destination port 0..65535 and source address is admitted iff the specification table says so (tcp->6, udp->17, http/https->6+17 on explicit or default port, icmp6/ping6->58 port 0; public => anyone, else friends/for); invalid services are refused; no service => deny.",
-  note="URL text is enumerated (net/url is evaluated natively on concrete strings); makePolicyKey summarised as an injective key; the inbound/outbound router paths (handleIncomingTraffic, handleTunPacket: unseal, inner==outer addresses, internal range, isolation) are not yet covered by this check.",
+  text="symbolic execution of getInfoFromURL/addInPolicyKey/CheckInboundTrafficPolicy for a grid of 216 service URLs (8 schemes x 3 hosts x 9 port spellings) x a symbolic access rule (public/friends bits, <=2 friend addresses, <=2 for-addresses): a packet with symbolic protocol 0..255, destination port 0..65535 and source address is admitted iff the specification table says so (tcp->6, udp->17, http/https->6+17 on explicit or default port, icmp6/ping6->58 port 0; public => anyone, else friends/for); invalid services are refused; no service => deny.",
+  note="URL text is enumerated (net/url is evaluated natively on concrete strings); makePolicyKey summarised as an injective key; router paths: Router.handleFrame -> handleIncomingTraffic (delivery to tun only if unsealed under the sender's session, inner == outer addresses, not internal, traffic on, policy or an allowed connection entry admits) and handleTunPacket (enters the mesh only if IPv6, >= 44 bytes, own source, non-multicast Mycoria non-API destination, traffic on, friend when isolated) with idealised crypto and recording models for error pings / hello / routing.",
   tech=TECH),
  "C15": dict(
   text="Symbolic execution of EncryptionSession.Out/In/Check, SequenceHandler.NextOut/RolloverRequired/Reset: one Out step from an arbitrary counter state issues a strictly larger (epoch,seq), never 0, rolls the out key and resets the priority counter on a regular wrap, refuses a priority wrap, and increments the counter only while the session lock is held; an in-order sender/receiver step across the wrap keeps window and key in sync and old-epoch frames are offered the new key; every delivery order of W consecutive frames around the wrap with displacement <= D accepts each frame offered its own key exactly once.",
@@ -44,8 +57,8 @@ claims = {
   note="B=4 quick / 8 thorough; RouteFrame/ForwardByPeer path not yet covered; end-to-end delivery in converged meshes is a global property over up to 16 concurrent routers and is outside this technique's reach.",
   tech=TECH),
  "C13": dict(
-  text="nopanic symbolic execution (every implicit Go panic — index, slice bounds incl. the len..cap rule, nil dereference, type assertion, explicit panic — is a solver obligation) of the network-facing kernels: ParseFrame on arbitrary bytes 0..65535 followed by every accessor/mutator (SetAppendixData, Clone, Reply, ReplyTo, ReturnToPool); additionally the kernels of C01 (VerifyAddress), C05 (link reader), C10 (switch/rotate) run in nopanic mode in their own checks.",
-  note="Router ping/announce/traffic handlers with CBOR bodies are not yet covered by this check; panics inside cbor/dns/gVisor/runtime are outside.",
+  text="nopanic symbolic execution (every implicit Go panic — index, slice bounds incl. the len..cap rule, nil dereference, type assertion, explicit panic incl. the double-release guard — is a solver obligation) of the network-facing kernels: ParseFrame on arbitrary bytes 0..65535 followed by every accessor/mutator (SetAppendixData, Clone, Reply, ReplyTo, ReturnToPool); the link reader with and without link encryption; Switch.handleFrame and NextRotateSwitchBlock on arbitrary blocks up to 11 bytes (incl. overflowing varints); Router.handlePing/parsePingHeader/sessionFromPingHeader with arbitrary decoded headers; Router.handleFrame -> handleIncomingTraffic plus the frameHandler release (each frame released at most once); VerifyAddress on arbitrary identities.",
+  note="Announce-ping parsing and the peering handshake handlers are not yet covered; panics inside cbor/dns/gVisor/runtime are outside; sequences of frames are covered in so far as each kernel starts from an arbitrary state.",
   tech=TECH),
  "C17": dict(
   text="Symbolic execution of Clone/SetAppendixData/ReturnToPool/NewFrameV1 on frames of symbolic shape across all five pooled-buffer tiers: the clone equals the original at a symbolic byte index and in all parsed fields, shares no buffer, writes and appendix changes on the clone never reach the original or the clone's protected bytes, releasing one frame leaves another untouched.",
